@@ -100,6 +100,7 @@ class Case:
         self.cfg_name, self.direction, self.script = cfg_name, direction, script
         cfg = dict(CONFIGS[cfg_name])
         cfg["peers"] = [dict(p) for p in cfg["peers"]]
+        cfg["apps"] = [dict(a) for a in cfg.get("apps", [])]
         # "in+ready": the peer already has a ready connection (an earlier inbound one) when this one arrives
         self.prior = direction == "in+ready"
         if direction == "out":
@@ -197,6 +198,21 @@ class Case:
                     p0.drain()
                     w.observe()
                     self.p0 = p0
+                    # the node has done a capabilities exchange; now its configuration changes while it runs (vendor id
+                    # and product name are plain attributes, documented as changeable at any time; add_application
+                    # works on a started node): what it advertises from here on is the configuration as it is now
+                    k = h64("late-config", self.cfg_name, repr(self.script)) % 4
+                    if k in (1, 3):
+                        self.node.vendor_id = 22222
+                        self.node.product_name = "renamed product"
+                        self.run.cov["identity_changed_after_first_exchange"] = \
+                            self.run.cov.get("identity_changed_after_first_exchange", 0) + 1
+                    if k in (2, 3):
+                        w.late_app("late", 16777999, [], auth=(k == 2), acct=(k == 3))    # no peers: routing stays as configured
+                        self.auth_ids = sorted(a.application_id for a in self.node.applications if a.is_auth_application)
+                        self.acct_ids = sorted(a.application_id for a in self.node.applications if a.is_acct_application)
+                        self.run.cov["application_added_after_first_exchange"] = \
+                            self.run.cov.get("application_added_after_first_exchange", 0) + 1
                 self.p = h.inbound(ip="10.1.0.1")
                 h.settle()
                 self.state = "await_cer"
